@@ -51,6 +51,7 @@ func genConfig(t *rapid.T, p Profile) Config {
 		c.SlowSetup[Client] = rapid.IntRange(0, 5).Draw(t, "slowSetupC") == 0
 		c.SlowSetup[Server] = rapid.IntRange(0, 5).Draw(t, "slowSetupS") == 0
 	}
+	c.InitBeforeRun = rapid.IntRange(0, 4).Draw(t, "initBeforeRun") == 0
 	c.LocalID[Client] = genID(t, "idC", p.HostileIDs)
 	c.LocalID[Server] = genID(t, "idS", p.HostileIDs)
 	for s := 0; s < 2; s++ {
@@ -157,7 +158,7 @@ func kinds(pairs ...any) []string {
 // Adversarial profile: the peer can do anything (C01, C04, C08, C11).
 var profAdversarial = Profile{
 	Kinds: kinds(EvStep, 10, EvDeliver, 3, EvDrain, 2, EvInject, 8, "data", 3, EvAdvance, 5, EvApprove, 2, EvCancel, 2, EvDrop, 1, EvDup, 1,
-		EvSetPaired, 1, EvSetAllow, 1, EvCloseLocal, 1, EvTransportError, 1, EvPropagate, 2, EvSpineWrite, 2, EvFailWrite, 1, EvFailOnce, 1, EvBurst, 1, EvSetAuto, 1),
+		EvSetPaired, 1, EvSetAllow, 1, EvCloseLocal, 1, EvTransportError, 1, EvPropagate, 2, EvSpineWrite, 2, EvFailWrite, 1, EvFailOnce, 1, EvBurst, 1, EvSetAuto, 1, EvAnnounceFail, 1),
 	MinEvents: 0, MaxEvents: 30, Prefix: 20, HostileIDs: false, StartFaults: true, SlowSetup: true, Trust: []string{"none", "none", "none", "paired", "auto"},
 }
 
